@@ -603,8 +603,8 @@ func (ix *PkgIndex) freshSliceD(f *FuncInfo, e ast.Expr, depth int) bool {
 			case "append":
 				return len(r.Args) > 0 && (sameVar(info, r.Args[0], v) || isFresh(r.Args[0]))
 			}
-			if isCallTo(info, r, "slices.Clone") {
-				return true
+			if isCallTo(info, r, "slices.Clone") || isCallTo(info, r, "slices.Concat") || isCallTo(info, r, "slices.Collect") || isCallTo(info, r, "slices.Sorted") {
+				return true // always a newly allocated slice
 			}
 			// library operations that return their (possibly re-allocated) first argument: fresh when applied to the fresh slice itself
 			for _, nm := range []string{"slices.Delete", "slices.DeleteFunc", "slices.Insert", "slices.Grow", "slices.Clip", "slices.Compact", "slices.CompactFunc"} {
